@@ -2,13 +2,19 @@
 pub struct Diag { }
 pub type ParseResult<T> = Result<T, Diag>;
 #[derive(Clone, Copy, PartialEq, Eq, Structural)]
-pub enum TokenKind { Semicolon, Other }
+pub enum TokenKind { Semicolon, LeftBrace, Else, If, Other }
 #[derive(Clone, Copy)]
 pub struct Token { pub k: TokenKind, pub id: u64 }
 pub struct Expr { pub id: u64 }
 pub struct Return { pub return_: Token, pub value: Option<Expr> }
 impl Return { pub fn new(return_: Token, value: Option<Expr>) -> (r: Return) ensures r.return_ == return_, r.value == value { Return { return_, value } } }
-pub enum Stmt { Return(Box<Return>), Other }
+pub enum Stmt { Return(Box<Return>), If(Box<If>), Other }
+#[derive(Clone, Copy)] pub enum BlockReturn { Can, Cannot }
+pub struct Block { pub id: u64 }
+pub enum Else { If(Box<If>), Block(Block) }
+pub struct If { pub cond: Expr, pub body: Block, pub else_body: Option<Else> }
+impl If { pub fn new(cond: Expr, body: Block, else_body: Option<Else>) -> (r: If) ensures r.cond == cond, r.body == body, r.else_body == else_body { If { cond, body, else_body } } }
+#[verifier::external_body] pub fn verif_unreachable<T>() -> T requires false { unimplemented!() }
 pub struct Parser {
   pub fun_kind: FunKind,
   pub previous: Token,
@@ -17,19 +23,25 @@ pub struct Parser {
   pub exprs: Ghost<Seq<Expr>>,
   /// ghost: number of tokens demanded with consume_basic(Semicolon)
   pub semis: Ghost<nat>,
+  /// ghost: the blocks parsed, in order
+  pub blocks: Ghost<Seq<Block>>,
 }
 impl Parser {
   /// consume the current token if it is of this kind
   #[verifier::external_body] pub fn match_kind(&mut self, kind: TokenKind) -> (r: ParseResult<bool>)
-    ensures final(self).fun_kind == old(self).fun_kind, final(self).exprs == old(self).exprs, final(self).semis == old(self).semis,
+    ensures final(self).fun_kind == old(self).fun_kind, final(self).exprs == old(self).exprs, final(self).semis == old(self).semis, final(self).blocks == old(self).blocks,
       r matches Ok(b) ==> b == (old(self).current.k == kind) { unimplemented!() }
   #[verifier::external_body] pub fn expr(&mut self) -> (r: ParseResult<Expr>)
-    ensures final(self).fun_kind == old(self).fun_kind, final(self).semis == old(self).semis,
+    ensures final(self).fun_kind == old(self).fun_kind, final(self).semis == old(self).semis, final(self).blocks == old(self).blocks,
       r matches Ok(e) ==> final(self).exprs@ == old(self).exprs@.push(e) { unimplemented!() }
   #[verifier::external_body] pub fn consume_basic(&mut self, kind: TokenKind, message: &str) -> (r: ParseResult<()>)
-    ensures final(self).fun_kind == old(self).fun_kind, final(self).exprs == old(self).exprs,
+    ensures final(self).fun_kind == old(self).fun_kind, final(self).exprs == old(self).exprs, final(self).blocks == old(self).blocks,
       r is Ok ==> final(self).semis@ == old(self).semis@ + (if kind == TokenKind::Semicolon { 1nat } else { 0nat }) { unimplemented!() }
   #[verifier::external_body] pub fn error<T>(&mut self, message: &str) -> (r: ParseResult<T>)
     ensures r is Err, final(self).fun_kind == old(self).fun_kind { unimplemented!() }
+  #[verifier::external_body] pub fn error_current<T>(&mut self, message: &str) -> (r: ParseResult<T>) ensures r is Err { unimplemented!() }
+  #[verifier::external_body] pub fn block(&mut self, block_return: BlockReturn) -> (r: ParseResult<Block>)
+    ensures final(self).fun_kind == old(self).fun_kind, final(self).exprs == old(self).exprs, final(self).semis == old(self).semis,
+      r matches Ok(b) ==> final(self).blocks@ == old(self).blocks@.push(b) { unimplemented!() }
   #[verifier::external_body] pub fn node<T>(&self, t: T) -> (r: Box<T>) ensures *r == t { unimplemented!() }
 }
